@@ -7,6 +7,7 @@ import SxVerif.Spec.Frame
 import SxVerif.Spec.Faithful
 import SxVerif.Proofs.Frame
 import SxVerif.Generated.Wiring
+import SxVerif.Proofs.CaptureSource
 
 namespace SxVerif.C06
 open SxVerif.Frame SxVerif.Proc SxVerif.Spec.Frame
@@ -61,5 +62,20 @@ private def synCfg : TcpCfg := { scanType := "tcpsyn", filter := .synack, flagsF
 
 example : run (.tcp synCfg) {} [synAck, nested]
     = [.record (.tcp "tcpsyn" [10,0,0,1] 80 ""), .none] := by decide
+
+
+/-- (T) the capture source follows the lock protocol of `Model/CaptureSource.lean`: `Close` = lock, deferred unlock,
+    `closed = true`, unmap; one read = lock, EOF if closed, read-and-copy, unlock (regenerated from
+    pkg/packet/afpacket/readwriter.go) -/
+theorem capture_source_protocol : SxVerif.Generated.sourceDesc = SxVerif.CaptureSource.modelled := by decide
+
+/-- **no read ever touches an unmapped ring**: any number of receiver goroutines (one is left behind by every engine
+    run / port chunk) and any number of `Close` calls, interleaved in any way — the D25 crash cannot happen -/
+theorem capture_source_never_faults (s : SxVerif.CaptureSource.Sys) (h : SxVerif.CaptureSource.Reachable s) :
+    s.fault = false := (SxVerif.CaptureSource.inv_reachable h).noFault
+
+/-- once closed, always closed: a receiver that is left behind can only get io.EOF out of the source -/
+theorem capture_source_closed_stays {s t : SxVerif.CaptureSource.Sys} (hs : SxVerif.CaptureSource.Step s t)
+    (hc : s.closed = true) : t.closed = true := SxVerif.CaptureSource.closed_mono hs hc
 
 end SxVerif.C06
